@@ -296,7 +296,7 @@ m('resumable-drops-conditions','C04',GCS,
 			Conds:  conds,
 		})''','''		_ = g.uploadIds.Set(id, &uploadData{
 			Object: obj,
-		})''','R12/c/resumable-initiation-stores-conditions')
+		})''','R12/c/(*GcsEmu).finishUpload$1/validateConds#1/conditions-come-from-the-request')
 m('parseconds-error-ignored','C04',GCS,
   '''	conds, err := parseConds(r.Form)
 	if err != nil {
